@@ -7,7 +7,7 @@ namespace Jose
 /-- Identity of a validator function in `joserfc/registry.py`. -/
 inductive Validator
   | str | url | int | bool | listStr | jwk | unsupported
-  | choices (cs : List String)
+  | choices (cs : List String) (multiple : Bool)   -- `in_choices(cs, multiple)`
   | custom (name : String)      -- anything the extractor does not recognise
   deriving Repr, DecidableEq, Inhabited
 
